@@ -22,7 +22,7 @@ template<class Geod> static void props(const char* name, const Geod& g, double a
       if (!((double)ang <= (1.5 * tol / ea + 8e-16) * q + 2 * d / std::fmax(r.s12, 1e-3) + 2 * tol / std::fmax(std::fabs(r.m12), 1.0) * 0 + 1e-15)) bad(rel("inverse-azi2", (double)ang * ea), "returned forward azimuth differs from the geodesic's by " + std::to_string((double)ang) + " rad"); }
     if (std::fabs((double)p.a12 - r.a12) * Math::degree() * ea > 1.5 * tol + 1e-9 * 0) bad(std::string("inverse-a12-") + name, "a12 inconsistent with the geodesic");
     // shortest: on a prolate ellipsoid the longitudinal extent is at most 180
-    if (f < 0 && std::fabs(lat1) < 89.999999 && std::fabs(lat2) < 89.999999 && !(std::fabs((double)p.lon12) <= 180 + 1e-9)) bad(rel("inverse-extent", (std::fabs((double)p.lon12) - 180) * Math::degree() * ea), "longitudinal extent " + std::to_string((double)p.lon12) + " > 180 on a prolate ellipsoid");
+    if (f < 0 && std::fabs(lat1) < 89.999999 && std::fabs(lat2) < 89.999999 && !(std::fabs((double)p.lon12) <= 180 + 1e-9 + 1.5 * tol / (ea * std::fmax(1e-9, std::fmin(std::cos(lat1 * Math::degree()), std::cos(lat2 * Math::degree())))) / Math::degree())) bad(rel("inverse-extent", (std::fabs((double)p.lon12) - 180) * Math::degree() * ea), "longitudinal extent " + std::to_string((double)p.lon12) + " > 180 on a prolate ellipsoid");
   }
   // (2) shortest path: no conjugate point inside (m12 >= 0), triangle inequality through way points
   if (r.a12 > 1e-6 && r.a12 < 179.999 && !(r.m12 >= -2 * tol)) bad(std::string("inverse-conjugate-") + name, "m12 = " + std::to_string(r.m12) + " < 0: a conjugate point lies inside the returned geodesic, it is not a shortest path");
